@@ -76,3 +76,16 @@ Example C04_rate_example :
   stored e = [LLeaf CInvariant false 1; LForall (LRate false true 3 CInt); LOr (LLeaf CBool false 4) (LRate false true 5 CInt); LLeaf CInvariant true 6] /\
   cost (decompose e false d0) = Some 2 /\ ncost (decompose e false d0) = 1 /\ clockrates (decompose e false d0) = true /\ strict (decompose e false d0) = true.
 Proof. vm_compute. repeat split. Qed.
+
+(* ---- template parameters in the 3.x syntax (ParamModel.v) ---- *)
+From Utap Require ParamModel.
+(* the callbacks the grammar issues for any list of parameter groups build exactly the parameters of the text: in order, nothing added or dropped, every name of
+   an `int a, b` group a reference and every name of a `const a, b` group a constant by value; the stack of type fragments is left as it was found *)
+Theorem C04_old_parameter_groups : forall gs, ParamModel.prun (ParamModel.cbs gs) (ParamModel.mkps [] [] false) = ParamModel.mkps [] (ParamModel.spec gs) false.
+Proof. exact ParamModel.old_parameters. Qed.
+Print Assumptions C04_old_parameter_groups.
+Theorem C04_old_parameter_names : forall gs,
+  map ParamModel.p_name (ParamModel.ps_params (ParamModel.prun (ParamModel.cbs gs) (ParamModel.mkps [] [] false))) = flat_map ParamModel.g_names gs.
+Proof. exact ParamModel.old_parameter_names. Qed.
+Print Assumptions C04_old_parameter_names.
+
